@@ -142,6 +142,28 @@ pub fn exec_run_opt(script: &RunScript, keep_log: bool, keep_text: bool, watchdo
           };
           ev2.lock().unwrap().push(EvalRec { tid: tid as u8, op: idx as u16, key: q.key(), class: out.class(), digest: out.digest(), text: clip(out.text(), keep_text), from_handle: false, rnew, seq: (s0, s1) });
         }
+        Op::QAlt { qs, times } => {
+          let s0 = next_seq();
+          let firsts: Vec<Outcome> = qs.iter().map(|q| q.eval()).collect();
+          let mut odd: Vec<Option<Outcome>> = qs.iter().map(|_| None).collect();
+          for i in 0..*times {
+            if i & 0x3ff == 0 && !sim().op_start(tid, idx as u32) {
+              break;
+            }
+            let k = (i % qs.len() as u64) as usize;
+            let out = qs[k].eval();
+            if odd[k].is_none() && (out.class() != firsts[k].class() || out.digest() != firsts[k].digest()) {
+              odd[k] = Some(out);
+            }
+          }
+          let s1 = next_seq();
+          for (k, q) in qs.iter().enumerate() {
+            ev2.lock().unwrap().push(EvalRec { tid: tid as u8, op: idx as u16, key: q.key(), class: firsts[k].class(), digest: firsts[k].digest(), text: clip(firsts[k].text(), keep_text), from_handle: false, rnew: None, seq: (s0, s0) });
+            if let Some(o) = &odd[k] {
+              ev2.lock().unwrap().push(EvalRec { tid: tid as u8, op: idx as u16, key: q.key(), class: o.class(), digest: o.digest(), text: clip(o.text(), keep_text), from_handle: false, rnew: None, seq: (s0, s1) });
+            }
+          }
+        }
         Op::HNew { slot, kind, args } => {
           let a = args.clone();
           let k = *kind;
@@ -158,7 +180,9 @@ pub fn exec_run_opt(script: &RunScript, keep_log: bool, keep_text: bool, watchdo
           ev2.lock().unwrap().push(EvalRec { tid: tid as u8, op: idx as u16, key: key_of(HNEW_KEY[k], args), class: out.class(), digest: out.digest(), text: clip(out.text(), keep_text), from_handle: true, rnew: None, seq: (s0, s1) });
         }
         Op::HNext { slot, n } => {
-          if let Some(h) = slots[*slot].take() {
+          if slots[*slot].as_ref().map(|h| !h.steppable()).unwrap_or(false) {
+            // no `next` of its own: nothing to do
+          } else if let Some(h) = slots[*slot].take() {
             let k = h.kind();
             let mut base = h.base();
             base.push(*n);
